@@ -54,7 +54,9 @@ def inner_by_variant(ctx, f, base="a1"):
     return out
 
 
-def run(ctx):
+def item_grammar_rules(ctx, P):
+    """Literal-versus-item lookahead of `Parse for NestedMeta` (shared with C13: path lists and whole
+    meta items in list position, leading `::` included, are read through it)."""
     # ---------------------------------------------------------------- Parse for NestedMeta
     f = ctx.fn("<darling_core::ast::data::NestedMeta as syn::parse::Parse>::parse")
     if f:
@@ -67,18 +69,22 @@ def run(ctx):
         maps = ctx.find_calls(f, r"^core::result::Result::<T, E>::map$")
         lit = [(b, t) for b, t in maps if ctx.expr(f, t["args"][1]).endswith("NestedMeta::Lit")]
         met = [(b, t) for b, t in maps if ctx.expr(f, t["args"][1]).endswith("NestedMeta::Meta")]
-        ctx.ob("C15.G.parse-shape", f.key, "one literal parse, one item parse, one error", len(lit) == 1 and len(met) == 1 and len(ctx.find_calls(f, r"ParseBuffer::<'a>::error$")) == 1, "%d/%d" % (len(lit), len(met)))
+        ctx.ob(P + ".G.parse-shape", f.key, "one literal parse, one item parse, one error", len(lit) == 1 and len(met) == 1 and len(ctx.find_calls(f, r"ParseBuffer::<'a>::error$")) == 1, "%d/%d" % (len(lit), len(met)))
         for b, t in lit:
-            ctx.requires("C15.G.literal-lookahead", f, b, "parse → NestedMeta::Lit", [PK + "=True", PB + "=False"], alt=[[PK + "=True", PB + "=True", P2 + "=False"]])
-            ctx.forbids("C15.G.bool-before-eq-is-an-item", f, b, "parse → NestedMeta::Lit", [PB + "=True", P2 + "=True"])
+            ctx.requires(P + ".G.literal-lookahead", f, b, "parse → NestedMeta::Lit", [PK + "=True", PB + "=False"], alt=[[PK + "=True", PB + "=True", P2 + "=False"]])
+            ctx.forbids(P + ".G.bool-before-eq-is-an-item", f, b, "parse → NestedMeta::Lit", [PB + "=True", P2 + "=True"])
         for b, t in met:
-            ctx.requires("C15.G.item-lookahead", f, b, "parse → NestedMeta::Meta", [PI + "=True"], alt=[[PI + "=False", PS + "=True", P3 + "=True"]])
+            ctx.requires(P + ".G.item-lookahead", f, b, "parse → NestedMeta::Meta", [PI + "=True"], alt=[[PI + "=False", PS + "=True", P3 + "=True"]])
         for b, t in ctx.find_calls(f, r"ParseBuffer::<'a>::error$"):
-            ctx.requires("C15.G.otherwise-error", f, b, "error", [PI + "=False", PS + "=False"], alt=[[PI + "=False", PS + "=True", P3 + "=False"]])
+            ctx.requires(P + ".G.otherwise-error", f, b, "error", [PI + "=False", PS + "=False"], alt=[[PI + "=False", PS + "=True", P3 + "=False"]])
         # the parsed types
         ps = ctx.find_calls(f, r"^syn::parse::ParseBuffer::<'a>::parse$")
         tys = sorted((mir.callee_info(t).get("targs") or ["?"])[0] for _, t in ps)
-        ctx.ob("C15.F.parsed-types", f.key, "parse::<syn::Lit> / parse::<syn::Meta>", tys == ["syn::attr::Meta", "syn::lit::Lit"], "%s" % tys)
+        ctx.ob(P + ".F.parsed-types", f.key, "parse::<syn::Lit> / parse::<syn::Meta>", tys == ["syn::attr::Meta", "syn::lit::Lit"], "%s" % tys)
+
+
+def run(ctx):
+    item_grammar_rules(ctx, "C15")
     f = ctx.fn("darling_core::ast::data::NestedMeta::parse_meta_list")
     if f:
         rs = ctx.ret_values(f)
